@@ -42,15 +42,16 @@ var c20RExceptions = map[string]string{
 func init() {
 	register(&Property{
 		ID:       "C20",
-		Patterns: []string{"./memory"},
+		Patterns: []string{"./memory", "./sql/analyzer", "./sql/planbuilder", "./sql/rowexec"},
 		Explanation: "Every write of the in-memory AUTO_INCREMENT counter (TableData.autoIncVal) is classified by the SSA shape of the stored value and of its control dependence, wherever the write is located: (W) monotone — the value is the Uint64 conversion of x and the store is control-dependent on `Compare(x, current counter) > 0`; increment — the address of the counter is passed to a helper; reset — the constants 0/1 into a freshly allocated TableData, or into an existing one under a branch on Column.AutoIncrement (the auto column is being added or removed), or unconditionally inside an unexported helper (whose callers rule R checks); copy — the value is loaded from another counter; explicit — the value is the parameter of SetAutoIncrementValue. Any other store is a violation. " +
 			"(H) every helper that receives the counter's address stores only `current + 1`, guarded against math.MaxUint64 and by an in-range conversion of the new value for the column type. " +
 			"(R) an unconditional resetting helper (TableData.truncate) may be called only from the TRUNCATE entry point (the method implementing sql.TruncateableTable) or by a function that afterwards restores the counter with a copy-shaped store: a table rewrite is not a TRUNCATE. " +
 			"(N) the counter means `next value to hand out`: whenever a function learns a row cell (an element of a sql.Row value, or a parameter an in-package caller binds to one) — it compares the cell with the counter or stores its conversion into the counter — the counter is strictly greater than that cell at every return that may be a success. Decided by abstract interpretation of sign(cell − counter) along every SSA path: Compare gives {<,=,>} refined by the branches on its result while the counter is unwritten, `counter = cell` gives {=}, `counter = cell + k` gives {<}, the increment helper maps = to <, and only {<} may reach a normal return; interprocedural over static in-package calls (callee effect per abstract input, the compare result may be returned to the caller), with earlier cells of a loop folded into a pending flag. " +
-			"(U) every function that hands a row to the edit accumulator (tableEditAccumulator.Insert: the row will be stored) compares that row's cell with the counter, itself or in a callee receiving the row.",
-		NotCovered: "LAST_INSERT_ID() / OkResult.InsertID reporting, the expression-level AutoIncrement node (GetNextAutoIncrementValue reserves a proposed value, not a stored cell: it is outside N), ALTER semantics beyond carrying the counter over, concurrency of the counter, that two counter addresses in one function denote the same TableData (N identifies the counter by field, as W does), that the compared cell is the AUTO_INCREMENT column's cell (index not checked), rows written to partitions without going through the accumulator",
-		Technique:  "who-may-write over go/ssa (all stores and address escapes of one struct field) + dominance-based control dependence + static call graph; N: path-sensitive abstract interpretation (sign of cell − counter) over the SSA CFG with interprocedural summaries",
-		Run:        func(c *Ctx) { runC20(c, c20Repo) },
+			"(U) every function that hands a row to the edit accumulator (tableEditAccumulator.Insert: the row will be stored) compares that row's cell with the counter, itself or in a callee receiving the row. " +
+			"(T1) who may turn a statement into a TRUNCATE (the executor of plan.Truncate and the backend's Truncate both reset the counter; DELETE must keep it): sql.TruncateableTable.Truncate is called only by a function that executes a *plan.Truncate node (or a delegating Truncate method); a *plan.Truncate node is constructed outside package plan only by the builder of the TRUNCATE statement (all its callers sit in the `case \"truncate\"` arm of the statement dispatch) or by a guarded rewrite: some for/range/if/switch statement that reads sql.Column.AutoIncrement lies on every CFG path from the function's entry to the construction and, folded over schemas of 1..3 columns x {column i AUTO_INCREMENT or not}, leaves the function whenever ANY column is AUTO_INCREMENT (analyzer.deleteToTruncate).",
+		NotCovered: "T1: schemas of more than 3 columns, rewrites that build a Truncate node through a path other than the constructor functions of package plan or a composite literal, the other conditions of the DELETE->TRUNCATE rewrite (triggers, foreign keys), integrators' backends outside the module; LAST_INSERT_ID() / OkResult.InsertID reporting, the expression-level AutoIncrement node (GetNextAutoIncrementValue reserves a proposed value, not a stored cell: it is outside N), ALTER semantics beyond carrying the counter over, concurrency of the counter, that two counter addresses in one function denote the same TableData (N identifies the counter by field, as W does), that the compared cell is the AUTO_INCREMENT column's cell (index not checked), rows written to partitions without going through the accumulator",
+		Technique:  "T1: who-may-construct / who-may-call over go/types + CFG all-paths + finite-domain fold of the guard (eng_mini); who-may-write over go/ssa (all stores and address escapes of one struct field) + dominance-based control dependence + static call graph; N: path-sensitive abstract interpretation (sign of cell − counter) over the SSA CFG with interprocedural summaries",
+		Run:        func(c *Ctx) { runC20(c, c20Repo); c20Truncate(c) },
 		Fixture: func(c *Ctx, fx *Prog) {
 			p := c20Params{rel: "testdata/c20/mem", structName: "TableData", field: "autoIncVal", sqlRel: "testdata/c20/sql", colType: "Column", colField: "AutoIncrement",
 				truncIface: "TruncateableTable", truncM: "Truncate", setM: "SetAutoIncrementValue",
